@@ -229,6 +229,45 @@ func init() {
 		e.ext["carrier."+e.strArg(args[0])] = args[1].(*Term)
 		return nil, false
 	})
+	reg("Sleep", func(e *Exec, fv *FuncV, args []Value, cc *ssa.CallCommon) (Value, bool) {
+		d := args[0].(*Term)
+		if _, ok := e.ext["clock.step"].(uint64); ok {
+			if !d.Const {
+				e.unsupported("Sleep with symbolic duration on a concrete clock")
+			}
+			cur, _ := e.ext["clock.cur"].(uint64)
+			e.ext["clock.cur"] = cur + d.U
+			return nil, false
+		}
+		if e.clock == nil {
+			e.clock = e.C.BVConst(64, 0)
+		}
+		e.clock = e.C.BVAdd(e.clock, d)
+		return nil, false
+	})
+	reg("CorruptBytes", func(e *Exec, fv *FuncV, args []Value, cc *ssa.CallCommon) (Value, bool) {
+		// a single-field corruption of valid bytes: 0 = junk prepended, 1 = first byte dropped, 2 = one byte flipped
+		c := e.C
+		valid := e.bytesCode(args[0])
+		mode := e.concreteInt(args[1], "corruption mode")
+		e.ndSeq++
+		x := c.Var(fmt.Sprintf("corrupt!%d", e.ndSeq), IntSort)
+		e.S.Declare(x)
+		lv, lx := e.bytesLen(valid), c.App("len!", BV(64), x)
+		e.Assume(c.mk(&Term{Op: ">", Sort: BoolSort, Args: []*Term{x, c.IntConst(0)}}))
+		e.Assume(c.Not(c.Eq(x, valid)))
+		switch mode {
+		case 0:
+			e.Assume(c.Eq(lx, c.BVAdd(lv, c.BVConst(64, 2))))
+			// the original bytes are its tail
+			e.Assume(c.Implies(c.Eq(lv, c.BVConst(64, 32)), c.Eq(c.App("suffix32!", IntSort, x), valid)))
+		case 1:
+			e.Assume(c.Eq(lx, c.BVSub(lv, c.BVConst(64, 1))))
+		default:
+			e.Assume(c.Eq(lx, lv))
+		}
+		return &BytesV{Code: x}, false
+	})
 	reg("ConcreteClock", func(e *Exec, fv *FuncV, args []Value, cc *ssa.CallCommon) (Value, bool) {
 		t := args[0].(*Term)
 		if !t.Const {
